@@ -83,6 +83,16 @@ def call(eng, st, fr, callee, args, argtys, dest_ty):
     m = CMPIMPL.match(callee)
     if m and (m.group(2) in INT_TYPES or m.group(2) == "bool"):
         return int_cmp(eng, st, m.group(3), args)
+    m = re.match(r"^<\((.*)\) as PartialEq>::(eq|ne)$", callee)
+    if m:
+        a, b = deref(eng, st, args[0]), deref(eng, st, args[1])
+        conds = []
+        for x, y in zip(a.fields, b.fields):
+            if not isinstance(x, (IntV, BoolV)) or not isinstance(y, (IntV, BoolV)):
+                return None
+            conds.append(cmp_("eq", x.e, y.e) if isinstance(x, IntV) else zsimp(Z(x.e) == Z(y.e)))
+        r = AND(*conds)
+        return [(True, BoolV(r if m.group(2) == "eq" else NOT(r)))]
     # Option / Result helpers
     m = re.match(r"^(?:std::option::|core::option::)?Option::<(.*)>::(\w+)$", callee)
     if m:
